@@ -1,5 +1,5 @@
 // every policy of the matrix (one translation unit each, see pol.cpp)
 #ifndef VF_WORLD_LIST
 #define VF_WORLD_LIST(X)                                                                                               \
-    X(P_dbg) X(P_rel) X(P_thr) X(P_vec) X(P_map) X(P_ind) X(P_indc) X(P_proj) X(P_projm) X(P_def) X(P_b) X(P_c) X(P_m1) X(P_m2)
+    X(P_dbg) X(P_rel) X(P_thr) X(P_vec) X(P_map) X(P_ind) X(P_indc) X(P_proj) X(P_projm) X(P_projv) X(P_def) X(P_b) X(P_c) X(P_m1) X(P_m2)
 #endif
